@@ -184,6 +184,23 @@ def run(A, R: Report, thorough: bool):
     R.check(bool(appends), 'R18.4', 'Task.save_to_run_info', key_of('append'), 'records appended in order', 'save_to_run_info does not append to the run-info log', where=where(fsave))
 
 
+    # ---- R18.6 every data class that keeps a log also gets its run record written
+    R.rule('R18.6', 'save_run_info writes the record on every path (the only gate, is_logging, is applied by the caller)', floor=1)
+    for ci in A.cls('Data').all_subclasses():
+        fsr = ci.methods.get('save_run_info')
+        if fsr is None:
+            continue
+        cfg6 = A.cfg(fsr)
+        writes = [n for n in inl(A, fsr) if isinstance(n, ast.Call) and (src(n.func).endswith('dump') or (isinstance(n.func, ast.Attribute) and n.func.attr in ('write', 'write_text')))]
+        if not writes:
+            R.undecided('R18.6', f'{ci.short}.save_run_info', 'how the record is written is not recognised', where=where(fsr))
+            continue
+        wn = [cn.id for w in writes for cn in cfg_nodes_for(cfg6, w)]
+        skip = cfg6.find_path([cfg6.entry.id], [cfg6.exit.id], avoid=wn, no_exc_from=list(cfg6.nodes))
+        R.check(skip is None, 'R18.6', f'{ci.short}.save_run_info', key_of('run-info-skipped', ci.short, skip is None), 'the record is written unconditionally',
+                'a path through save_run_info writes nothing: data classes that keep a log but take that path (e.g. in-memory data) get no run record for a successful run',
+                witness=cfg6.describe_path(skip) if skip else None, where=where(fsr))
+
     # ---- R18.5 run info and log are read from storage on every request
     from .purity import check_stateless
     R.rule('R18.5', 'run_info / log readers keep no per-object copy: every request reads what the latest run stored', floor=2)
